@@ -62,7 +62,7 @@ class DynOps:
             return z3.BoolVal(True)
         if name == "Sequence":
             return z3.Or(t == 5, t == 4)
-        if name == "Number":
+        if name in ("Number", "Real"):
             return z3.Or(t == 1, t == 2, t == 3)
         raise EngineError(f"isinstance(dyn, {name})")
 
@@ -74,11 +74,37 @@ class DynOps:
         return z3.If(t == 0, False, z3.If(z3.Or(t == 1, t == 2, t == 3), DREAL(v.z) != 0, z3.If(z3.Or(t == 5, t == 4), DLEN(v.z) > 0, True)))
 
     def dyn_len(self, v, node):
+        """len() of a dynamically typed value: TypeError (a branch of the caller, judged by its contract) unless it is a list or a str"""
         t = TAG(v.z)
+        sized = z3.Or(t == 5, t == 4)
         if not self.spec:
-            self.ctx.oblige("safety.len_of_sized", z3.Or(t == 5, t == 4), node)
-            self.ctx.assume(z3.Or(t == 5, t == 4))
+            if self.ctx.no_branch:
+                # inside a merged / per-element evaluation there is no branching: the TypeError is a safety obligation here
+                self.ctx.oblige("safety.len_of_sized_value", sized, node)
+                self.ctx.assume(sized)
+            elif not self.ctx.branch(sized, f"dynlen@{getattr(node, 'lineno', 0)}"):
+                from .interp import PyRaise
+                raise PyRaise(VExc("TypeError"), node)
         return VInt(DLEN(v.z))
+
+    def dyn_item(self, v, k):
+        """k-th element of a sized dynamic value (characters of a str are strs)"""
+        r = VDyn(DITEM(v.z, k))
+        self.ctx.assume(z3.And(0 <= TAG(r.z), TAG(r.z) <= 6, DLEN(r.z) >= 0, z3.Implies(TAG(v.z) == 4, TAG(r.z) == 4)))
+        return r
+
+    def dyn_iter(self, v, node):
+        """symbolic iteration over a dynamic value: TypeError unless list / str"""
+        t = TAG(v.z)
+        sized = z3.Or(t == 5, t == 4)
+        if not self.spec:
+            if self.ctx.no_branch:
+                self.ctx.oblige("safety.iteration_over_sized_value", sized, node)
+                self.ctx.assume(sized)
+            elif not self.ctx.branch(sized, f"dyniter@{getattr(node, 'lineno', 0)}"):
+                from .interp import PyRaise
+                raise PyRaise(VExc("TypeError"), node)
+        return (DLEN(v.z), lambda k: self.dyn_item(v, k), [])
 
     def dyn_getitem(self, v, i, node):
         t = TAG(v.z)
@@ -86,9 +112,7 @@ class DynOps:
             self.ctx.oblige("safety.subscript_of_list", t == 5, node)
             self.ctx.assume(t == 5)
         idx = self.norm_index(i, DLEN(v.z), node)
-        r = VDyn(DITEM(v.z, idx))
-        self.ctx.assume(z3.And(0 <= TAG(r.z), TAG(r.z) <= 6, DLEN(r.z) >= 0))
-        return r
+        return self.dyn_item(v, idx)
 
     def dyn_eq(self, a, b, node):
         if a.kind == "dyn" and b.kind == "dyn":
